@@ -537,6 +537,50 @@ theorem td_match_accepts_genuine_quorum (c : TdChain) (preHeight preTerm preBits
   rw [hv]
   simp [genuine_quorum_accepted vals es q hn hvalid hq hqm hcount]
 
+/-! ### rollback markers -/
+
+/-- A rollback marker the ledger cannot resolve (its snapshot block `marker - 3` is above the tip) leaves NO
+validator set in force for the view: there is no fallback to the initial or any other set. -/
+theorem xpoa_unresolved_marker_no_set (c : Chain) (view bits : Nat) (hv : 3 < view - 1) (hb : bits ≠ 0)
+    (hs : c.start + 3 ≤ bits) (ht : c.tip + 3 < bits) : xpoaValidatorsAt c view bits = none := by
+  unfold xpoaValidatorsAt xpoaGetValidates
+  rw [if_neg (by omega), if_neg hb, if_neg (by omega), if_pos (by omega)]
+
+/-- Hence no certificate - of the initial set, of the set the node holds in memory, of the set the view would
+have without the marker - is accepted for a block whose rollback marker cannot be resolved ... -/
+theorem xpoa_unresolved_marker_rejects (c : Chain) (view preBits : Nat) (es : List Entry) (hv : 3 < view - 1)
+    (hb : preBits ≠ 0) (hs : c.start + 3 ≤ preBits) (ht : c.tip + 3 < preBits) : xpoaMatchQC c view preBits es = false := by
+  unfold xpoaMatchQC
+  rw [xpoa_unresolved_marker_no_set c view preBits hv hb hs ht]
+  rfl
+
+/-- ... and `CheckMinerMatch` refuses every block above StartHeight built on such a predecessor, as it refuses
+every block whose OWN marker cannot be resolved (no proposer can be computed). -/
+theorem xpoa_checkMinerMatch_unresolved_marker_rejects (c : Chain) (preBits : Nat) (b : Cand) (hh : c.start < b.height)
+    (hv : 3 < b.height - 1 - 1) (hb : preBits ≠ 0) (hs : c.start + 3 ≤ preBits) (ht : c.tip + 3 < preBits) :
+    xpoaCheckMinerMatch c preBits b = false := by
+  unfold xpoaCheckMinerMatch
+  split
+  · rfl
+  · split
+    · rfl
+    · rw [if_neg (by omega)]
+      split
+      · rfl
+      · rename_i j _
+        split
+        · rfl
+        · rename_i hj
+          have hjv : j.view = b.height - 1 := by omega
+          rw [hjv]
+          exact xpoa_unresolved_marker_rejects c _ preBits j.es hv hb hs ht
+
+theorem xpoa_checkMinerMatch_own_marker_unresolved_rejects (c : Chain) (preBits : Nat) (b : Cand)
+    (hv : 3 < b.height - 1) (hb : b.ownBits ≠ 0) (hs : c.start + 3 ≤ b.ownBits) (ht : c.tip + 3 < b.ownBits) :
+    xpoaCheckMinerMatch c preBits b = false := by
+  unfold xpoaCheckMinerMatch
+  rw [xpoa_unresolved_marker_no_set c b.height b.ownBits hv hb hs ht]
+
 /-! ### non-vacuity: the boundary is observable -/
 
 -- chain: initial set {0,1,2,3}; block 3 contains the edit to {4,5,6,7}; tip 6.  The candidate of height 7 certifies
@@ -556,5 +600,13 @@ example : xpoaCheckMinerMatch ⟨1, 6, [0, 1, 2, 3], [⟨3, [4, 5, 6, 7]⟩]⟩ 
 example : tdValidatorsAt ⟨1, [0, 1, 2], [⟨2, [4, 5, 6]⟩], [0, 1, 1, 1, 1, 1, 2, 2]⟩ 5 1 0 = some [0, 1, 2] ∧
     tdValidatorsAt ⟨1, [0, 1, 2], [⟨2, [4, 5, 6]⟩], [0, 1, 1, 1, 1, 1, 2, 2]⟩ 6 2 0 = some [4, 5, 6] ∧
     tdValidatorsAt ⟨1, [0, 1, 2], [⟨2, [4, 5, 6]⟩], [0, 1, 1, 1, 1, 1, 2, 2]⟩ 7 2 0 = some [4, 5, 6] := by decide
+
+-- the initial set is {0,1}; since the edit in block 1 the set is {0,2,3,4}; tip 4.  Block 5 carries the marker 1000:
+-- the candidate 6 is refused with the removed validator's signature (a quorum of the INITIAL set) as with a quorum of
+-- the set in force without the marker; with the last resolvable marker (tip + 3) the latter is accepted
+example : xpoaCheckMinerMatch ⟨1, 5, [0, 1], [⟨1, [0, 2, 3, 4]⟩]⟩ 1000 ⟨6, 0, 0, some ⟨5, 5, [⟨1, true⟩]⟩⟩ = false ∧
+    xpoaCheckMinerMatch ⟨1, 5, [0, 1], [⟨1, [0, 2, 3, 4]⟩]⟩ 1000 ⟨6, 0, 0, some ⟨5, 5, [⟨2, true⟩, ⟨3, true⟩]⟩⟩ = false ∧
+    xpoaCheckMinerMatch ⟨1, 5, [0, 1], [⟨1, [0, 2, 3, 4]⟩]⟩ 8 ⟨6, 0, 0, some ⟨5, 5, [⟨2, true⟩, ⟨3, true⟩]⟩⟩ = true ∧
+    xpoaCheckMinerMatch ⟨1, 5, [0, 1], [⟨1, [0, 2, 3, 4]⟩]⟩ 9 ⟨6, 0, 0, some ⟨5, 5, [⟨2, true⟩, ⟨3, true⟩]⟩⟩ = false := by decide
 
 end XV.C14b
